@@ -37,7 +37,8 @@ EXTENDS Naturals, Sequences, FiniteSets, TLC
 CONSTANTS Types,      \* subset of {"get","set","result","error","absent","garbage"}
           Payloads,   \* payload kinds (see AllPayloads)
           Froms,      \* sender classes
-          IdKinds,    \* {"fresh","dup","empty","pending"}; "pending" = the id of the client's own outstanding request
+          IdKinds,    \* {"fresh","dup","empty","pending"}; "pending" = the id of the client's own outstanding request,
+                      \* "dup" = the id of the previous IQ whose id kind was not "pending"
           Peers,      \* sender classes the client may have sent a tracked request to (subset of Froms \ {"Empty"})
           ExtSets,    \* {"none","default","all","allrev"}
           MaxHist
@@ -246,6 +247,9 @@ Reinit(x) ==
 
 Bound == Len(hist) <= MaxHist
 View  == mvars
+\* generation with a request always outstanding: when none is, the next step issues one
+KeepPending == (pending = "none") => (pending' # "none")
+
 TourView == <<ext, open>>     \* tour: one source state per extension set
 PendView == <<ext, open, pending>>   \* tour with an outstanding request: one source state per extension set and peer
 =============================================================================
